@@ -257,9 +257,13 @@ func New(opt Options) *World {
 	is := state.NewInitStates()
 	var clientsTotal currency.Coin
 	var ids []state.IDTokens
-	for _, cl := range w.Clients {
-		ids = append(ids, state.IDTokens{ID: cl.ID, Tokens: opt.ClientFunds})
-		clientsTotal += opt.ClientFunds
+	for i, cl := range w.Clients {
+		f := opt.ClientFunds
+		if i == 0 {
+			f = 2e17 // one rich client: amounts beyond 2^53 (float64 precision) are reachable
+		}
+		ids = append(ids, state.IDTokens{ID: cl.ID, Tokens: f})
+		clientsTotal += f
 	}
 	ids = append(ids, state.IDTokens{ID: w.Owner.ID, Tokens: opt.ClientFunds})
 	clientsTotal += opt.ClientFunds
